@@ -92,8 +92,9 @@ pub fn emit<W: Write>(c: &mut Cases<W>, cfg: &FileCfg, entries: &[(Vec<u8>, Vec<
     c.bump(&format!("levels{}", if cfg.levels > 4 { 9 } else { cfg.levels }), 1);
     c.bump(if cfg.unclamped { "bs.unclamped" } else { "bs.public" }, 1);
     c.bump("entries.total", entries.len() as u64);
-    // C09: every fourth file is written through a sink that accepts only part of each buffer
-    let outcome = if with_old && c.count % 4 == 0 {
+    // every fourth file is written through a sink that accepts only part of each buffer (any legal
+    // io::Write must do: the writer may not rely on write() taking a whole block)
+    let outcome = if c.count % 4 == 0 {
         let ctl = crate::c_io::Ctl::new();
         *ctl.rng.borrow_mut() = Some(Rng::new(c.count));
         ctl.mode.set(3);
@@ -291,6 +292,12 @@ pub fn generate_c14<W: Write>(c: &mut Cases<W>, rng: &mut Rng, thorough: bool) {
     if thorough {
         lens.extend([2097151usize, 2097152, 2097153]);
     }
+    // lengths 0 and 0: the two-byte frame as the only entry of a block (and of the file), and as the
+    // first entry before others
+    emit(c, &base, &[(vec![], vec![])], false);
+    emit(c, &FileCfg { levels: 2, ..base.clone() }, &[(vec![], vec![])], false);
+    emit(c, &base, &[(vec![], vec![]), (vec![0u8], vec![])], false);
+    emit(c, &FileCfg { block_size: 16, unclamped: true, levels: 1, ..base.clone() }, &[(vec![], vec![]), (vec![0u8], vec![]), (vec![0u8, 0], vec![])], false);
     for (i, &l) in lens.iter().enumerate() {
         let cfg = FileCfg { levels: (i % 3) as u8, interval: Some(1 + i % 4), ..base.clone() };
         // the boundary length as key length, as value length, and both; with neighbours around it
